@@ -273,10 +273,10 @@ PROPS = {
         "assumptions": [],
     },
     "C17": {
-        "obligations": [IO + n for n in ["length_flatMap_const", "getElem_flatMap_const", "offset_in_bounds", "offset_injective", "rows_count", "rows_spec",
+        "obligations": [IO + n for n in ["length_flatMap_const", "getElem_flatMap_const", "offset_in_bounds", "offset_injective", "offset_surjective", "rows_count", "rows_spec",
                                          "rows_obs_major_count", "rows_obs_major_spec", "header_spec", "header_obs_major_spec"]],
         "level_text": "Theorems (any C, N, K incl. zero-sized axes, any element type): the row/offset model emits exactly C*N rows, row (c,o) sits at position c*N+o with labels (c,o), its dim_d entry is "
-                      "element (c,o,d) of the row-major buffer, no slice leaves the buffer, the offset map is injective (each element exported once), header/schema as documented; twin statement for the "
+                      "element (c,o,d) of the row-major buffer, no slice leaves the buffer, the offset map is injective and onto the buffer (each element exported exactly once), header/schema as documented; twin statement for the "
                       "observation-major Parquet tensor writer. Tied to src/io by calling every real writer, reading the files back with the csv / arrow-ipc / parquet readers and requiring the model "
                       "to reproduce all labels and values exactly (f32->f64 widening recomputed in the model, NaN canonicalised).",
         "level_note": "Trusted: the byte encoders/decoders of csv, arrow-ipc and parquet, and the readers used to read files back; ndarray's axis_iter order (modelled as nested lists).",
